@@ -29,3 +29,21 @@ Lemma default_ip_bucket_ok : bucket_cfg_ok default_cfg.
 Proof. split; vm_compute; congruence. Qed.
 Lemma default_tunnel_bucket_ok : bucket_cfg_ok default_tunnel_cfg.
 Proof. split; vm_compute; congruence. Qed.
+
+(* token forms of a ClientID = 0 handshake, probed on the real HandleHandshake (Gen token_table): every form that
+   step 4 accepts as a first connection is charged by gate 3; at least two different forms register *)
+Definition tok_registers (f : nat) : bool := fst (nth f token_table (false, false)).
+Definition tok_charged (f : nat) : bool := snd (nth f token_table (false, false)).
+Lemma registering_forms_charged_table :
+  forallb (fun rc => implb (fst rc) (snd rc)) token_table = true /\
+  (2 <= length (filter fst token_table))%nat.
+Proof. split; vm_compute; [reflexivity|lia]. Qed.
+Lemma registering_forms_charged : forall f, tok_registers f = true -> tok_charged f = true.
+Proof.
+  intros f. unfold tok_registers, tok_charged.
+  destruct registering_forms_charged_table as [H _]. rewrite forallb_forall in H.
+  destruct (Nat.lt_ge_cases f (length token_table)) as [Hlt|Hge].
+  - specialize (H _ (nth_In _ (false, false) Hlt)). destruct (nth f token_table (false, false)) as [r c].
+    cbn in *. destruct r; [intros _; exact H|discriminate].
+  - rewrite nth_overflow by exact Hge. discriminate.
+Qed.
